@@ -47,27 +47,28 @@ type lexSSAModel struct {
 }
 
 type lexTokPath struct {
-	b          byte
-	p          *pwPath
-	peek       map[int]byte // bytes behind the current one that the path has established (offset -> byte)
-	tokType    string
-	typeOK     bool
-	literal    string
-	literalOK  bool
-	litScanner string // the literal is the result of this scanner
-	litScanFn  *ssa.Function
-	reads      int // readChar events after the leading whitespace skip
-	scans      []string
-	scanFns    []*ssa.Function
-	readsAfter int  // reads after the last scanner
-	recursive  bool // the token function was called again on this path
-	retRecur   bool // ... and its token is returned as is
-	lineSet    bool
-	lineOther  bool // LineNumber set from something else than the line counter
-	inside     *bool
-	end        string
-	pos        token.Pos
-	skipFirst  bool // the whitespace skipper ran before the current character was looked at
+	b            byte
+	p            *pwPath
+	peek         map[int]byte // bytes behind the current one that the path has established (offset -> byte)
+	tokType      string
+	typeOK       bool
+	literal      string
+	literalOK    bool
+	litScanner   string // the literal is the result of this scanner
+	litScanFn    *ssa.Function
+	litUnescapes int // ... after this many applications of strings.Replace(s, `\"`, `"`, -1) in the token function
+	reads        int // readChar events after the leading whitespace skip
+	scans        []string
+	scanFns      []*ssa.Function
+	readsAfter   int  // reads after the last scanner
+	recursive    bool // the token function was called again on this path
+	retRecur     bool // ... and its token is returned as is
+	lineSet      bool
+	lineOther    bool // LineNumber set from something else than the line counter
+	inside       *bool
+	end          string
+	pos          token.Pos
+	skipFirst    bool // the whitespace skipper ran before the current character was looked at
 }
 
 func fieldIndex(st *types.Struct, v *types.Var) int {
@@ -151,6 +152,7 @@ func (w *World) lexSSA() *lexSSAModel {
 		return lm
 	}
 	// scanners: string-returning methods with a loop; classified by the declaration model
+	var voidLoops []*ssa.Function
 	for _, f := range m.methods {
 		fn := w.SSAFunc(f)
 		if fn == nil || !lm.hasLoop[fn] {
@@ -162,6 +164,7 @@ func (w *World) lexSSA() *lexSSAModel {
 		}
 		if sig.Results().Len() == 0 && sig.Params().Len() == 0 && fn != lm.readChar {
 			lm.skipper = fn
+			voidLoops = append(voidLoops, fn)
 		}
 	}
 	// the inside-tag token function: what the exported one returns when the inside flag is set
@@ -183,6 +186,29 @@ func (w *World) lexSSA() *lexSSAModel {
 	}
 	if lm.inside == nil {
 		lm.problems = append(lm.problems, "inside-tag token function (the callee of the exported one when the inside flag is set)")
+		return lm
+	}
+	// the whitespace skipper: of the cursor loops without result, the one the inside-tag token function calls first
+	if len(voidLoops) > 1 {
+		isVoidLoop := map[*ssa.Function]bool{}
+		for _, f := range voidLoops {
+			isVoidLoop[f] = true
+		}
+		pw := &pathWalker{maxPaths: 2000, stopCall: func(p *pwPath, fr *ssa.Function, c *ssa.Call) bool { return true }}
+		pw.walk(lm.inside)
+		first := map[*ssa.Function]int{}
+		for _, p := range pw.paths {
+			if p.end == "stop" && len(p.events) > 0 {
+				if c, ok := p.events[len(p.events)-1].(*ssa.Call); ok && isVoidLoop[c.Call.StaticCallee()] && len(p.decisions) == 0 {
+					first[c.Call.StaticCallee()]++
+				}
+			}
+		}
+		if len(first) == 1 {
+			for f := range first {
+				lm.skipper = f
+			}
+		}
 	}
 	return lm
 }
@@ -268,7 +294,11 @@ func (lm *lexSSAModel) moves(p *pwPath, n int) (reads int, scanned bool) {
 		case cal != nil && lm.hasLoop[cal] && cal != lm.skipper:
 			scanned = true
 		case cal != nil && cal == lm.skipper:
-			reads, scanned = 0, false // leading whitespace: the token starts behind it
+			if reads == 0 && !scanned {
+				reads, scanned = 0, false // leading whitespace: the token starts behind it
+			} else {
+				scanned = true
+			}
 		case cal != nil && (cal == lm.inside || cal == lm.outer):
 			scanned = true
 		}
@@ -331,6 +361,50 @@ func (lm *lexSSAModel) inlinePolicy(root *ssa.Function) func(caller, callee *ssa
 	}
 }
 
+// redispatchStop: the token function runs its whitespace skipper again after the cursor has moved:
+// what follows is the lexing of the next token (the loop form of "skip the comment, then fetch
+// another token"); the path is cut there and summarised like a recursive call.
+func (lm *lexSSAModel) redispatchStop(fn *ssa.Function) func(p *pwPath, fr *ssa.Function, c *ssa.Call) bool {
+	return func(p *pwPath, fr *ssa.Function, c *ssa.Call) bool {
+		if fr != fn || fn != lm.inside || c.Call.StaticCallee() != lm.skipper || lm.skipper == nil {
+			return false
+		}
+		reads, scanned := lm.moves(p, len(p.events))
+		return reads > 0 || scanned
+	}
+}
+
+// nextBranch: the first conditional branch control reaches after the call without passing another call.
+func nextBranch(c *ssa.Call) *ssa.If {
+	c = origCall(c)
+	b := c.Block()
+	after := false
+	for step := 0; step < 12 && b != nil; step++ {
+		for _, ins := range b.Instrs {
+			if ins == ssa.Instruction(c) {
+				after = true
+				continue
+			}
+			if !after && step == 0 {
+				continue
+			}
+			switch x := ins.(type) {
+			case *ssa.If:
+				return x
+			case *ssa.Call:
+				if x.Call.StaticCallee() != nil && len(x.Call.StaticCallee().Blocks) > 0 {
+					return nil
+				}
+			}
+		}
+		if len(b.Succs) != 1 {
+			return nil
+		}
+		b = b.Succs[0]
+	}
+	return nil
+}
+
 // tokenPaths enumerates the paths of the token function fn for the current character b.
 func (lm *lexSSAModel) tokenPaths(fn *ssa.Function, b byte, inside bool) []*lexTokPath {
 	key := fmt.Sprintf("%p/%d/%v", fn, b, inside)
@@ -374,7 +448,7 @@ func (lm *lexSSAModel) tokenPaths(fn *ssa.Function, b byte, inside bool) []*lexT
 		}
 		return nil, false
 	}
-	pw := &pathWalker{loadHook: hook, inline: lm.inlinePolicy(fn), unroll1: true, maxPaths: 5000}
+	pw := &pathWalker{loadHook: hook, inline: lm.inlinePolicy(fn), unroll1: true, maxPaths: 5000, stopCall: lm.redispatchStop(fn)}
 	pw.walk(fn)
 	var out []*lexTokPath
 	for _, p := range pw.paths {
@@ -444,6 +518,29 @@ func (lm *lexSSAModel) summarise(fn *ssa.Function, b byte, p *pwPath) *lexTokPat
 		}
 		_ = i
 	}
+	if p.end == "stop" && len(p.events) > 0 {
+		// the skipper ran again: the next token is lexed by the same dispatch when control is where
+		// it is after the leading skip, and nothing moved since the scanner that was skipped over
+		last, _ := p.events[len(p.events)-1].(*ssa.Call)
+		var lead *ssa.Call
+		for _, ev := range p.events {
+			if c, ok := ev.(*ssa.Call); ok && c.Call.StaticCallee() == lm.skipper {
+				lead = c
+				break
+			}
+		}
+		tp.recursive = true
+		tp.end = "return"
+		tp.lineSet = true
+		same := last != nil && lead != nil && lead != last && nextBranch(lead) != nil && nextBranch(lead) == nextBranch(last)
+		tp.retRecur = same && tp.readsAfter == 0 && len(tp.scans) > 0
+		if n := len(tp.scans); n > 0 && tp.scans[n-1] == "loop" && len(tp.scanFns) == n && tp.scanFns[n-1] == lm.skipper {
+			// (the re-run of the skipper itself is not a scanner of this token)
+			tp.scans, tp.scanFns = tp.scans[:n-1], tp.scanFns[:n-1]
+			tp.retRecur = same && tp.readsAfter == 0 && len(tp.scans) > 0
+		}
+		return tp
+	}
 	if p.end != "return" || len(p.results) != 1 {
 		return tp
 	}
@@ -477,9 +574,21 @@ func (lm *lexSSAModel) summarise(fn *ssa.Function, b byte, p *pwPath) *lexTokPat
 	if v, ok := field(lm.tokLitI); ok {
 		if c, ok := p.constOf(v); ok && c.Kind() == constant.String {
 			tp.literal, tp.literalOK = constant.StringVal(c), true
-		} else if call, ok := p.resolve(v).(*ssa.Call); ok && call.Call.StaticCallee() != nil && lm.scanners[call.Call.StaticCallee()] != "" {
-			tp.litScanner = call.Call.StaticCallee().Name()
-			tp.litScanFn = call.Call.StaticCallee()
+		} else {
+			// the result of a scanner, possibly passed through the un-escaping of \" (strings.Replace)
+			lv := p.resolve(v)
+			for i := 0; i < 3; i++ {
+				n, inner, ok := unescapeLayer(p, lv)
+				if !ok || n == 0 {
+					break
+				}
+				tp.litUnescapes++
+				lv = p.resolve(inner)
+			}
+			if call, ok := lv.(*ssa.Call); ok && call.Call.StaticCallee() != nil && lm.scanners[call.Call.StaticCallee()] != "" {
+				tp.litScanner = call.Call.StaticCallee().Name()
+				tp.litScanFn = call.Call.StaticCallee()
+			}
 		}
 	} else {
 		tp.literal, tp.literalOK = "", true // zero value
@@ -492,6 +601,30 @@ func (lm *lexSSAModel) summarise(fn *ssa.Function, b byte, p *pwPath) *lexTokPat
 		}
 	}
 	return tp
+}
+
+// unescapeLayer: v is strings.Replace(inner, `\"`, `"`, -1) (or ReplaceAll): returns 1 and inner;
+// 0 when v is no call of strings.Replace at all; ok is false for a Replace with other arguments.
+func unescapeLayer(p *pwPath, v ssa.Value) (n int, inner ssa.Value, ok bool) {
+	call, isCall := p.resolve(v).(*ssa.Call)
+	if !isCall {
+		return 0, nil, true
+	}
+	pkg, fname := staticCalleeName(call)
+	if pkg != "strings" || (fname != "Replace" && fname != "ReplaceAll") || len(call.Call.Args) < 3 {
+		return 0, nil, true
+	}
+	from, ok1 := p.constOf(call.Call.Args[1])
+	to, ok2 := p.constOf(call.Call.Args[2])
+	if !ok1 || !ok2 || from.Kind() != constant.String || to.Kind() != constant.String || constant.StringVal(from) != "\\\"" || constant.StringVal(to) != "\"" {
+		return 1, call.Call.Args[0], false
+	}
+	if fname == "Replace" && len(call.Call.Args) == 4 {
+		if c, ok := p.constOf(call.Call.Args[3]); !ok || constant.Sign(c) >= 0 {
+			return 1, call.Call.Args[0], false
+		}
+	}
+	return 1, call.Call.Args[0], true
 }
 
 // byteLabel renders a set of initial bytes compactly.
